@@ -76,7 +76,7 @@ CHECKS["C06"] = dict(
 )
 CHECKS["C18"] = dict(
     category="proof",
-    text="Coq model with a failing-call parameter: a failed NewAddress leaves store and (repaired) cache unchanged and its retry returns the fault-free address, addresses are numbered consecutively for ANY sequence of failing/succeeding calls, a faulted block announcement changes nothing and its retry equals the fault-free one, single and double faults in the last removal round are retried to completion; refutation witnesses for the four defects of the code as found. Tied to the code by fault enumeration on the real wallet: every numbered database call (begin, get, put, delete, commit, …) of every operation of generated histories made to fail once or repeatedly through a DB wrapper, the operation must report or recover, nothing observable may change, the retry and the end state must equal the fault-free twin.",
+    text="Coq model of every write operation of the wallet as a program of numbered database calls with in-memory updates, post-commit update and repair: a fault at ANY call of ANY operation (create, import, NewAddress, block / reorganisation processing, pending set, import batch, removal request, phase 1, every removal round) is reported, leaves store and memory as before, and after ANY sequence of faults (also during repairs) the repeated operation gives the fault-free result — for every operation of every multi-wallet history; addresses are numbered without gap or repetition under any faults and partially failing keystore loads; historical / refutation witnesses for the repaired defects (cached address, swallowed reads and puts, removal double fault, the reload that could fail, a stale counter mirror). Tied to the code by fault enumeration on the real wallet: sets of numbered database calls (single faults, adjacent and NON-adjacent double faults reaching the repair paths) chosen so that every distinct target (operation, calling functions, call kind, key, ordinal) seen in any fault-free twin is faulted at least once; the operation must report or recover, nothing observable may change, the retry and the end state — the whole wallet database — must equal the fault-free twin's.",
     design_ref="DESIGN.md section 5, C18",
     note="Trusted: Coq kernel (no axioms), ocaml/C01 driver, harness (dbwrap fault injector, cfsim). Fault = the call returns an error and has no effect. Create/import/remove under faults are enumerated, not proved; three consecutive faults in the last removal round still need a restart (stated as a _partial theorem); swallowed-read sites in the pending-transaction code are not reached. Four defects repaired (f6a5978, 23ccdb6, 33294fa).",
     technique="Coq proof (operation = commit entirely or leave the store unchanged; retry equivalence) + storage-fault enumeration on the real wallet with twin comparison",
@@ -118,14 +118,14 @@ CHECKS["C05"] = dict(
 )
 CHECKS["C07"] = dict(
     category="proof",
-    text="Coq model of the background import (status ready/importing-with-cursor, batches of B heights in one commit, hand-over only at the handler's tip, cursor pull-back on disconnect, retry on failure) over the C01 ledger: for ANY batch size and any number of batches a wallet restored on a static well-formed chain ends ready with exactly the live ledger of C01 (= the chain specification) and is unready and unselectable before (theorem labelled _partial: static chain, fresh database); step lemmas for batches, failed batches and pull-back; refutation witnesses for the two repaired defects. Interleavings with tips and reorgs are tied by correspondence: an original wallet lives through a generated history, a twin is restored from mnemonic or exported keystore in a second instance on the same node while blocks and reorgs arrive between batches (DB gate parks the worker after each commit), incl. 1010-1160 block chains for multi-batch rescans; twin = model = chain specification = original.",
+    text="Coq model of the restore: discovery, batched rescan (any batch size, any number of batches) with the follower suspended, the tip check of a batch (refused and retried unless the node's block at its upper height is the block the follower is synced to), cursor pull-back on disconnect, hand-over at the tip; theorems: while the node connects, disconnects and RE-connects blocks and the follower processes or lags between batches, a wallet that becomes ready holds exactly the ledger of a wallet that watched the chain live and reports the chain specification; it cannot be selected before; a batch never abandons the task; refutation witnesses for the three repaired defects (dropped task, refused reorganisation after a rescan, the bounce before the tip check). Tied to the code by an original wallet and its twin restored from mnemonic / keystore in a second real instance while blocks and reorganisations arrive between and inside batches (DB gate parks worker or handler at chosen points), the bounce family (node leaves the follower's chain while a batch is parked and returns), 1010-1160 block chains, multi-wallet instances; model = implementation on every step, implementation = chain specification and = the original wallet at the end.",
     design_ref="DESIGN.md section 5, C07",
     note="Trusted: Coq kernel (no axioms), ExtrOcamlBasic + driver, harness (sim/hist/gate), mass-core's script-hash index (environment, written by the sim). Pending set, key derivation and gap discovery are inputs to this model (C09, C04, C12). Two defects repaired (7082cdf, 4701beb).",
     technique="Coq proof (batched rescan = live ledger for every batch size, by induction on batches using the C01 theorems) + twin correspondence on real WalletManager instances with controlled interleavings",
 )
 CHECKS["C08"] = dict(
     category="proof",
-    text="Coq model of wallet removal (flag, phase 1 prefix deletes, phase 2 rounds with a per-round cap, removable-transaction rule, status and keystore deletion) over the C01 ledger: when the last round finishes nothing mentions the wallet or its script hashes and it is not listed (any cap); every removal step leaves other wallets' credits, reports, status and addresses unchanged; block processing during a removal never panics and never re-creates rows (repaired code); re-import works; removal needs the passphrase and is refused while importing; three refutation witnesses for the code as found. Tied to the code by multi-wallet histories in one instance (shared transactions, pending transactions, staking/binding records), removal at random moments incl. restarts between steps and blocks/reorgs observed between two steps, a raw scan of the LevelDB files for the wallet id / script hashes / addresses, survivors compared with the chain specification before, after and after a further 2-5 deep reorg, plus eight directed scenarios.",
+    text="Coq model of wallet removal (flag, phase 1 prefix deletes, phase 2 rounds with a per-round cap, removable-transaction rule decided from the wallet's own credits, status and keystore deletion) over the C01 ledger: when the last round finishes nothing mentions the wallet or its script hashes and it is not listed (any cap); every removal step leaves other wallets' credits, reports, status and addresses unchanged; survivors report the chain specification after ANY later history in which blocks may leave and come back any number of times; block processing during a removal never panics and never re-creates rows; re-import works; removal needs the passphrase and is refused while importing; four refutation witnesses for the code as found (incl. the owner look-up on the node's chain). Tied to the code by multi-wallet histories in one instance (shared transactions, pending transactions, staking/binding records), removal at random moments incl. restarts between steps and blocks/reorgs between two steps, the re-attach family (node away and back around removal steps), a raw scan of the LevelDB files for the wallet id / script hashes / addresses, survivors compared with the chain specification before, after and after a further reorg, plus directed scenarios for shared previous transactions.",
     design_ref="DESIGN.md section 5, C08",
     note="Trusted: as C07. Survivors' correctness under LATER connects/reorgs is by repaired-on-witness examples and correspondence, not a general theorem; unspent/address/game rows are views of the credits in the model (their prefix deletes are checked by the raw scan). Three defects repaired (bb52441, 07c06d4).",
     technique="Coq proof (erasure and frame invariants of the removal state machine) + correspondence on real multi-wallet histories with raw-storage scan",
